@@ -17,7 +17,7 @@ func init() { Registry["C10"] = C10 }
 func C10(p *ir.Program, r *report.R) {
 	c := C{p, r}
 	r.Floor = 30
-	r.Explain = "Decided (necessary conditions only): (B1) no stale cached hash after mutation — every shortNode/fullNode built in Trie.insert/delete takes its flags from t.newFlag() (dirty, no cached hash), every in-place child assignment is on a node obtained from copy() or built in the same function and that node's flags are reset, and nodeFlag.hash has no writer outside the hasher/decoder; (B2) every SecureTrie accessor passes the hashed key to the inner trie; (B3) VerifyProof decodes a proof node only after its bytes hashed to the hash the parent (initially the root) commits to, and the next expected hash is the hashNode child of the node just decoded. NOT decided: canonical form of insert/delete (root independent of operation order), last-write lookup, iteration order — these are invariants of a recursive data structure over operation histories, out of reach of a sound static rule here."
+	r.Explain = "Decided (necessary conditions only): (B1) no stale cached hash after mutation — every shortNode/fullNode built in Trie.insert/delete takes its flags from t.newFlag() (dirty, no cached hash), every in-place child assignment is on a node obtained from copy() or built in the same function and that node's flags are reset, and nodeFlag.hash has no writer outside the hasher/decoder; (B2) every SecureTrie accessor passes the hashed key to the inner trie; (B3) VerifyProof decodes a proof node only after its bytes hashed to the hash the parent (initially the root) commits to, and the next expected hash is the hashNode child of the node just decoded. ADDED after seeded-change testing: (B4) nothing in libs/trie extends a slice owned by an existing shortNode/fullNode in place (append(n.Key, ...)) — handles share nodes; (B5) Prove's collection loop runs while len(key) > 0 && tn != nil, matching what VerifyProof consumes. NOT decided: canonical form of insert/delete (root independent of operation order), last-write lookup, iteration order — these are invariants of a recursive data structure over operation histories, out of reach of a sound static rule here."
 	r.Trusted = []string{"crypto.Keccak256", "decodeNode/hasher encodings agree (libs/ser, C11)"}
 
 	// ---- B1 -------------------------------------------------------------------
@@ -195,6 +195,108 @@ func C10(p *ir.Program, r *report.R) {
 		}
 		r.Check("K5", "trie.(*Trie).Prove/put-encoding", p.Pos(pv.Pos()), okPut, "Prove stores the node encoding in the proof db")
 	}
+
+	// ---- B4: nodes are immutable once built -------------------------------------------------
+	// Handles share nodes (Trie/SecureTrie copies are value copies): nothing in the package may
+	// extend a slice that belongs to an existing node in place. append(n.Key, ...) can write into
+	// the backing array that other handles still read.
+	{
+		nApp := 0
+		for _, f := range p.Funcs {
+			if f.Pkg == nil || ir.RelPkg(f.Pkg.Pkg) != "libs/trie" || f.Blocks == nil || strings.HasSuffix(p.Pos(f.Pos()), "_test.go") {
+				continue
+			}
+			ir.Instrs(f, func(in ssa.Instruction) {
+				call, ok := in.(*ssa.Call)
+				if !ok {
+					return
+				}
+				bi, ok := call.Call.Value.(*ssa.Builtin)
+				if !ok || bi.Name() != "append" {
+					return
+				}
+				nApp++
+				root := call.Call.Args[0]
+				for i := 0; i < 8; i++ {
+					if sl, ok := root.(*ssa.Slice); ok {
+						root = sl.X
+						continue
+					}
+					break
+				}
+				owner := ""
+				switch x := root.(type) {
+				case *ssa.UnOp:
+					if fa, ok := x.X.(*ssa.FieldAddr); ok {
+						if fv := ir.FieldVar(fa.X, fa.Field); fv != nil {
+							if nt := c10NodeType(fa.X.Type()); nt != "" {
+								owner = nt + "." + fv.Name()
+							}
+						}
+					}
+				case *ssa.Field:
+					if fv := ir.FieldVar(x.X, x.Field); fv != nil {
+						if nt := c10NodeType(x.X.Type()); nt != "" {
+							owner = nt + "." + fv.Name()
+						}
+					}
+				}
+				if owner != "" {
+					r.Check("K4", "trie/node-immutable/"+ir.FuncName(f)+"/append("+owner+")", p.InstrPos(in), false, "append extends a slice owned by an existing trie node in place ("+ir.Render(call.Call.Args[0])+"); shared nodes must be copied (concat)")
+				}
+			})
+		}
+		r.Check("K4", "trie/node-immutable/appends-inspected", "-", nApp >= 10, fmt.Sprintf("%d append calls in libs/trie inspected; none extends a node-owned slice (violations are reported individually)", nApp))
+	}
+
+	// ---- B5: Prove walks the whole key -------------------------------------------------------
+	// VerifyProof consumes nodes until the key is exhausted; Prove must therefore collect nodes
+	// until the key is exhausted (or the path ends): the loop condition is len(key) > 0 && tn != nil.
+	{
+		pr := p.Func("libs/trie", "Trie.Prove")
+		okLoop := false
+		for _, l := range ir.Loops(pr) {
+			for b := range l.Body {
+				fs := ir.FactsAtBlock(b)
+				if ir.HasFact(fs, "lt(0,len(φ:key))") && ir.HasFact(fs, "!eq(φ:tn,nil)") {
+					okLoop = true
+				}
+			}
+			// no other exit from the collection loop than the header test and the panic for unknown node types
+			for b := range l.Body {
+				if b == l.Header {
+					continue
+				}
+				for _, sblk := range ir.Info(pr).Succs[b] {
+					if !l.Body[sblk] && len(l.Latches) > 0 {
+						// exits out of the body other than through the loop test
+						if _, isIf := b.Instrs[len(b.Instrs)-1].(*ssa.If); isIf && b != l.Header {
+							// the `len(key) > 0 && tn != nil` test spans two blocks (header + cond.true)
+							continue
+						}
+						okLoop = false
+					}
+				}
+			}
+		}
+		r.Check("K2", "trie.(*Trie).Prove/walks-until-key-exhausted", p.Pos(pr.Pos()), okLoop, "the node collection loop runs while len(key) > 0 && tn != nil")
+	}
+
 }
 
 var _ = report.Discharged
+
+
+// c10NodeType names the trie node struct a value (or pointer) denotes, or "".
+func c10NodeType(t types.Type) string {
+	if pt, ok := t.Underlying().(*types.Pointer); ok {
+		t = pt.Elem()
+	}
+	if nt, ok := t.(*types.Named); ok {
+		switch nt.Obj().Name() {
+		case "shortNode", "fullNode":
+			return nt.Obj().Name()
+		}
+	}
+	return ""
+}
